@@ -351,9 +351,16 @@ def run_exec(ctx, t, build, tier, drv, fill=None):
     if fill:
         env["VERIF_FILL"] = fill
     t_0 = time.time()
-    rc, _, err = vlib.run_harness(drv, ["exec"], stdin=cmds.encode(), out_path=outp, env=env, timeout=3000)
+    tmo = 600 if tier == "quick" else 3000
+    rc, _, err = vlib.run_harness(drv, ["exec"], stdin=cmds.encode(), out_path=outp, env=env, timeout=tmo)
     rows = read_rows(outp)
     vlib.log("[C06/ec2] exec %s %s%s: %d rows, %.0fs" % (t.name, build, " fill" if fill else "", len(rows), time.time() - t_0))
+    if rc in (124, 137):
+        last = rows[-1] if rows else {}
+        ctx.violation("ec2:no-return:after=%s:curve=%s" % (last.get("op"), t.name),
+                      "drv_ec2 did not finish the commands of curve %s within %d s (%s build; the unchanged tree needs about a minute): a library call "
+                      "does not return; last completed row: %s" % (t.name, tmo, build, json.dumps(last)[:300]), {"curve": t.curve_data(), "last_row": last})
+        return rows
     if rc != 0:
         site = crash_site(err)
         overflow = "heap-buffer-overflow" in err
@@ -445,12 +452,20 @@ def record(ctx, tier, drv, tables):
     outp = ctx.path("record2.ndjson")
     cmds = record_cmds(tables, tier).encode()
     env = {"VERIF_SEED": ctx.seed}
-    rc, _, err = vlib.run_harness(drv, ["record"], stdin=cmds, out_path=outp, env=env, timeout=900)
+    tmo = 300 if tier == "quick" else 2400
+    rc, _, err = vlib.run_harness(drv, ["record"], stdin=cmds, out_path=outp, env=env, timeout=tmo)
     crash = None
-    if rc != 0:
+    if rc in (124, 137):
+        rows = read_rows(outp)
+        last = rows[-1] if rows else {}
+        ctx.violation("ec2:no-return:record:after=%s:%s" % (last.get("op"), last.get("cv")),
+                      "drv_ec2 record did not finish within %d s (the unchanged tree needs seconds): a library call does not return (e.g. dstuPointGen "
+                      "waits for a point whose n-fold is O); last completed line: %s" % (tmo, json.dumps(last)[:300]), {"last_line": last})
+        rc, err = 0, ""
+    elif rc != 0:
         crash = (rc, err)
         env["VERIF_STACK_SLACK"] = 256
-        rc, _, err = vlib.run_harness(drv, ["record"], stdin=cmds, out_path=outp, env=env, timeout=900)
+        rc, _, err = vlib.run_harness(drv, ["record"], stdin=cmds, out_path=outp, env=env, timeout=tmo)
     rows = read_rows(outp)
     n, bad, r = vlib.validate_lines(ctx, "Trace_EC2", outp, timeout=1200 if tier == "quick" else 6000, workers=8 if tier == "quick" else None)
     # binding self-test: one corrupted field per operation kind must be rejected
@@ -571,7 +586,7 @@ def run_part(ctx):
         compare(pr, t, alt, b, st)
         ev.cov["ec2_selftest_replay_altered_entries"] = len(alt)
         ev.cov["ec2_selftest_replay_reported"] = st["bad"]
-        if st["bad"] != len(alt) or not pr.keys:
+        if st["bad"] < len(alt) or not pr.keys:
             ctx.note_inconclusive("binding self-test (ec2 replay): %d altered entries, %d reported" % (len(alt), st["bad"]))
     # (2)
     rows, n, bad, r, crash, (nm, n2, nb2, r2), (rc2, err2) = rec
